@@ -31,17 +31,27 @@ Definition obs_matches {A} (eqb : A -> A -> bool) (r : res A) (o : obs A) : bool
 
 Definition eval18 (c : case18) : verdict :=
   let m := c_mesh c in
+  let checked :=
+    match c_dual c, c_bary c, c_used c with
+    | OOk g, OOk nb, OOk nu => check_C18 m g nb nu
+    | _, _, _ => false
+    end in
+  (* large meshes of the contract (high-valence families): the checker's verdict is the
+     correspondence -- Properties/C18.v, C18_checker_implies_model / C18_model_passes_checker /
+     C18_dual_total: check = true <-> the three observations are the model's outputs *)
+  let large :=
+    wf_mesh m && match max_dimension (m_topology m) with
+                 | Some dim => 64 <? length (spec_elements dim (m_topology m))
+                 | None => false
+                 end in
   let corr :=
+    if large then checked
+    else
     obs_matches csr_eqb (dual m) (c_dual c)
     && obs_matches Nat.eqb (barycentre_count m) (c_bary c)
     && obs_matches Nat.eqb (used_element_count m) (c_used c) in
-  let prop :=
-    if wf_mesh m then
-      match c_dual c, c_bary c, c_used c with
-      | OOk g, OOk nb, OOk nu => check_C18 m g nb nu
-      | _, _, _ => false                 (* panic or hang inside the contract *)
-      end
-    else true in                          (* outside the 2-D/3-D, distinct-node quantifier *)
+  (* panic or hang inside the contract: checked = false; outside the 2-D/3-D, distinct-node quantifier: true *)
+  let prop := if wf_mesh m then checked else true in
   let cls : N :=
     match max_dimension (m_topology m) with
     | None => 2%N
